@@ -50,20 +50,24 @@ def cfg_key(state):
 
 
 SAMPLE_QUICK = {"RiemannGen": 96}      # expensive families: a seeded sample of the enumerated campaign in the quick tier
+SAMPLE_THOROUGH = {"RiemannGen": 1200}  # 36 450 configurations x 3 s: the thorough tier takes a larger seeded sample
 
 
 def scan_collect(prop, prefixes, camp_driver, tier, verdict, module="Campaign", require_patterns=None, groups=None):
     """Run the scan campaigns, validate the traces, feed failed clauses of this property into
     `verdict`; returns the statistics for the evidence file."""
     states, cres = core.enumerate_campaign(sorted(camp_driver), tier, prop, module=module)
-    if tier == "quick":
+    if True:
         import random
         rng = random.Random(core.seed() + 23)
         keep = []
+        sampled = {}
+        cap = SAMPLE_QUICK if tier == "quick" else SAMPLE_THOROUGH
         for fam in sorted({s["fam"] for s in states}):
             lst = [s for s in states if s["fam"] == fam]
-            if fam in SAMPLE_QUICK and len(lst) > SAMPLE_QUICK[fam]:
-                lst = rng.sample(lst, SAMPLE_QUICK[fam])
+            if fam in cap and len(lst) > cap[fam]:
+                sampled[fam] = "%d of %d enumerated configurations (seeded sample)" % (cap[fam], len(lst))
+                lst = rng.sample(lst, cap[fam])
             keep += lst
         states = keep
 
@@ -130,7 +134,7 @@ def scan_collect(prop, prefixes, camp_driver, tier, verdict, module="Campaign", 
     return {"states": cres["distinct"] + tv["states"], "transitions": cres["states"] + tv["generated"],
             "traces": len(states) - len(errors), "evaluations": evals, "distinct": len(nontrivial), "points": npts,
             "jumps": nj, "events": len(events), "raised": len(errors), "clause_hits": clause_hits, "patterns": patterns,
-            "campaign_states": len(states), "sample": {"campaign_state": states[0] if states else None, "events": sample},
+            "campaign_states": len(states), "sampled": sampled, "sample": {"campaign_state": states[0] if states else None, "events": sample},
             "families": sorted(camp_driver)}
 
 
@@ -149,7 +153,7 @@ def scan_check(prop, prefixes, groups, camp_driver, tier, level="model_checking"
                             "distinct = (family, parameter set, geometry, region)"),
            "campaign_states": r["campaign_states"], "scan_points": r["points"], "jumps_located": r["jumps"],
            "trace_events": r["events"], "solver_raised": r["raised"], "failed_clauses_this_property": r["clause_hits"],
-           "known_findings_hit": verdict.known, "exhaustive": True,
+           "known_findings_hit": verdict.known, "exhaustive": not r["sampled"], "sampled_families": r["sampled"],
            "wave_patterns_covered": {"%s/%s/%s" % k: v for k, v in sorted(r["patterns"].items())},
            "families": r["families"]}
     core.write_evidence(prop, tier, level, cov, time.time() - t0, len(verdict.violations), assumptions)
